@@ -141,7 +141,7 @@ def materialise(pack, seed, vote_scale=3, exact_boundaries=True, ballast_rep=26,
                     # a modelled unit: factor strictly inside (0.5, 2); vary it a little
                     bt = [tb, tb + tb // 4, tb - tb // 4][(i + p) % 3]
                 else:
-                    bt = vote_scale * 4 ** i
+                    bt = vote_scale * 4 ** (1 + i % 5)
                 bd = bt // 2 + (i % 3 if bt > 4 else 0)
                 brow.append(
                     dict(
